@@ -1018,6 +1018,11 @@ def enumerated_cases():
                              [["file", "fa", "y.txt", "corrupt"], ["file", "root", "r.txt", "corrupt"], ["os_scan"]]),
             "nscan-switch-defaults": (base_cfg_case(nscan=d, nscan_via="defaults", target="sw"),
                                       [["folder", "fa", "corrupt"], ["os_scan"]]),
+            # a node scan re-requested while the first is in flight, with health changes between the two due steps
+            # (restart and ignore are both undocumented and both accepted: the windows are merged, the value and
+            # coverage clauses still apply to whichever completion is seen)
+            "nscan-rerequest": (base_cfg_case(nscan=d),
+                                [["sw", "dns-server", "compromise"], ["os_scan"], ["tick"], ["os_scan"]]),
             "fscan-switch": (base_cfg_case(fscan=d, target="sw"),
                              [["file", "fa", "x.txt", "corrupt"], ["folder", "fa", "scan"]]),
             "restore": (base_cfg_case(frestore=d), [["folder", "fa", "corrupt"], ["folder", "fa", "restore"]]),
@@ -1057,7 +1062,7 @@ def worker(ctx: Ctx):
     if ctx.idx == 0:
         ctx.extra["enumerated_family_cases"] = len(cases)
         ctx.extra["enumerated_family"] = (
-            "21 programs (node scan on a server without applications and on a switch, service/application/defaults/option+defaults fix, restore with a scan completing inside it, database restore after delete, folder scan on created/root/database folder, node scan "
+            "22 programs (re-requested node scan, node scan on a server without applications and on a switch, service/application/defaults/option+defaults fix, restore with a scan completing inside it, database restore after delete, folder scan on created/root/database folder, node scan "
             "via node key / defaults key, folder restore, fs-level restore of a deleted folder) x durations "
             "{0,1,2,3,5}: straight line, and with each of 14 interfering events at every tick position"
             + ("" if ctx.tier == "thorough" else " (quick: every straight-line case, every 2nd interference case)")
